@@ -23,12 +23,22 @@ RULE = ('runs with layer children (-j N, or layers resumed after a NotImplemente
         'no partial data; always: no hang (structural deadlock detection), no worker thread died. '
         'distinct = digest of hook sequences + fired channel '
         'faults + completion order; non-trivial = a channel/child fault fired')
-HOWS = ['exit0', 'exit3', 'kill', 'segv']
+HOWS = ['exit0', 'exit3', 'kill', 'segv', 'sysexit', 'kbdint']
 UNI = ['test_ünï', 'test_中文', 'test_' + 'x' * 300, 'test_αβ']
 # spellings a test id can have through parametrisation / __str__ (line-boundary characters of
 # str.splitlines that bytes.splitlines does not know, tabs, embedded newline, long)
 WEIRD = ['[line\u2028sep]', '[vt\x0bx]', '[ff\x0cx]', '[nel\x85x]', '[fs\x1cx]', '[a\nb]',
          '[tab\there]', '[ünï 中]', '[' + 'y' * 400 + ']', '[ps\u2029x]', '[1 2 3 4]', '[cr\rx]']
+
+
+def legal_how(site, how):
+    """sys.exit() ends a child only from a layer hook (in a test it is an error outcome), ^C
+    only from a test or layer hook (an import catches everything)."""
+    if how == 'sysexit' and site not in ('layer.setUp', 'layer.tearDown'):
+        how = 'kbdint'
+    if how == 'kbdint' and not site.startswith(('layer.', 'test.')):
+        how = 'kill'
+    return how
 
 
 def hook_sites(world):
@@ -70,8 +80,11 @@ def make_world(rng, big=0, small=False):
                 t['must_fail'] = rng.choice(['AssertionError', 'ValueError'])
     if big:
         L = world['layers'][0]['name']
+        # (with very long ids the report alone exceeds a megabyte)
+        tail = rng.choice(['', '', '_' + 'y' * 420])
         world['modules'][0]['classes'].append(
-            {'name': 'TBig', 'layer': L, 'tests': [{'name': 'test_%04d' % i} for i in range(big)]})
+            {'name': 'TBig', 'layer': L,
+             'tests': [{'name': 'test_%04d%s' % (i, tail)} for i in range(big)]})
         if world['modules'][0].get('suite') is not None:
             world['modules'][0]['suite'] = None
     return world
@@ -96,6 +109,8 @@ def gen(seed, thorough=False):
                      'exc': rng.choice(['AssertionError', 'ValueError'])})
     sel = sorted(m.select({}))
     opt = {'v': rng.choice([0, 1, 2, 3]), 'j': rng.randint(2, 4)}
+    if rng.random() < 0.15:
+        opt['repeat'] = rng.randint(2, 3)     # the same test several times in a child's lists
     if rng.random() < 0.12 and world['layers']:
         # resumed mode instead of -j: a NotImplementedError tearDown early in the run
         cands = [L['name'] for L in world['layers'] if m.has_hook(L['name'], 'tearDown')]
@@ -111,11 +126,13 @@ def gen(seed, thorough=False):
         if k < 0.22:
             sites = hook_sites(world)
             e = dict(rng.choice(sites))
-            e.update({'a': 'die', 'how': rng.choice(HOWS), 'where': 'child'})
+            e.update({'a': 'die', 'how': legal_how(e['site'], rng.choice(HOWS)), 'where': 'child'})
             plan.append(e)
         elif k < 0.32:
             plan.append({'site': 'channel', 'ident': lf, 'a': 'spawn_fail',
-                         'errno': rng.choice(['ENOMEM', 'EAGAIN', 'ENOENT'])})
+                         'errno': rng.choice(['ENOMEM', 'EAGAIN', 'ENOENT']),
+                         'exc': rng.choice(['OSError', 'OSError', 'ValueError',
+                                            'UnicodeEncodeError', 'SubprocessError'])})
         elif k < 0.5:
             plan.append({'site': 'channel', 'ident': lf, 'a': 'truncate_report',
                          'at': rng.randint(0, 5000)})
@@ -167,6 +184,10 @@ def gen(seed, thorough=False):
             plan.append({'site': 'channel', 'ident': lf, 'a': 'stall',
                          'pos': rng.randint(0, 60), 'dt': rng.choice([0.005, 2.0, 45.0])})
     knobs = {'pipe_capacity': rng.choice([16, 64, 512, 4096, 65536])}
+    if big >= 400:
+        # (megabytes through a 16-byte pipe cost millions of scheduler steps: keep it bounded)
+        knobs['pipe_capacity'] = max(knobs['pipe_capacity'], 4096)
+        opt.pop('repeat', None)
     if rng.random() < 0.3:
         knobs['defaults_split'] = rng.randint(0, 99)
     plain_ids = not any(t.get('idx') or not t['name'].isascii()
@@ -205,7 +226,7 @@ def directed(tier, base_seed):
         for s in hook_sites(world):
             for how in hows:
                 e = dict(s)
-                e.update({'a': 'die', 'how': how, 'where': 'child'})
+                e.update({'a': 'die', 'how': legal_how(e['site'], how), 'where': 'child'})
                 yield {'property': ID, 'seed': seed, 'world': world,
                        'plan': _ws.order_plan(base_plan + [e]), 'opt': {'j': 2, 'v': 1},
                        'sched': {'prng': seed}, 'knobs': {'pipe_capacity': 512},
